@@ -104,10 +104,118 @@ def jobs_for(tier):
             for n in range(0, N + 1):
                 jobs.append(dict(id='%s/%s/len%d' % (i, codec, n), template=i, codec=codec, n=n, tier=tier,
                                  numeric_enums=False))
+    # JER mapping layer on hostile documents: the JSON object of a valid value in which every number
+    # is replaced by an arbitrary integer (json itself is C code: the parsed document is the input)
+    for i in ['bits', 'bits-fixed', 'octets', 'seq-opt', 'choice-ext', 'seqof', 'enum-ext', 'combo-bits-default', 'int']:
+        jobs.append(dict(id='%s/jer/hostile-numbers' % i, template=i, codec='jer', n=0, tier=tier, numeric_enums=False,
+                         kind='jer-doc'))
     return jobs
 
 
+def _hostile(ctx, obj, path='$'):
+    """copy of a JSON-compatible object with every integer replaced by a fresh unconstrained one"""
+    from pyfront import SymInt
+    if isinstance(obj, bool) or obj is None:
+        return obj
+    if isinstance(obj, (int, SymInt)):
+        return ctx.int('h' + path, -(1 << 40), 1 << 40)
+    if isinstance(obj, dict):
+        return {k: _hostile(ctx, x, '%s.%s' % (path, k)) for k, x in obj.items()}
+    if isinstance(obj, list):
+        return [_hostile(ctx, x, '%s[%d]' % (path, i)) for i, x in enumerate(obj)]
+    return obj
+
+
+def _doc_json(obj, m):
+    """concrete JSON-compatible object of a document with proxies under a model"""
+    from pyfront import SymInt, SymStr, DigitStr
+    if isinstance(obj, SymInt):
+        return m.eval(obj.e, model_completion=True).as_signed_long()
+    if isinstance(obj, SymStr):
+        return obj.concrete(m)
+    if isinstance(obj, DigitStr):
+        out = []
+        for c in obj.ch:
+            if isinstance(c, str):
+                out.append(c)
+            else:
+                d = '%x' % m.eval(c[1], model_completion=True).as_long()
+                out.append(d.upper() if c[0] == 'H' else d)
+        return ''.join(out)
+    if isinstance(obj, dict):
+        return {k: _doc_json(x, m) for k, x in obj.items()}
+    if isinstance(obj, list):
+        return [_doc_json(x, m) for x in obj]
+    if hasattr(obj, 'concretize'):
+        return obj.concretize(m)
+    return obj
+
+
+def make_doc_harness(job):
+    """JER: decode of a hostile document (mapping layer; the JSON parser's result is the input)"""
+    import json as _json
+    cj = Compiled(dict(job, tier='quick'))
+    fp0 = fingerprint(cj.spec)
+    mods = C.CODEC_MODS + C.TEXT_MODS
+
+    def harness(ctx):
+        cj.cands.attach(ctx)
+        eng = ctx.eng
+        with shimmed(mods):
+            v = cj.value(ctx)
+            if not cj.accepted(v):
+                ctx.note('outside-domain')
+                return
+            try:
+                doc = cj.ct._type.encode(v)
+            except Exception:
+                ctx.note('encode-raises')
+                return
+            doc = _hostile(ctx, doc)
+            ctx.describe = lambda m: {'data': _json.dumps(_doc_json(doc, m)).encode().hex()}
+            size = len(_json.dumps(_doc_json(doc, eng.get_model())))
+            eng.index_limit = 8 * size + 64
+
+            def large(expr, model):
+                ctx.violation('size-from-input-unbounded', 'an index/size/shift can exceed %d for a %d-octet document'
+                              % (eng.index_limit, size), model=model, candidate=True)
+            eng.on_large_index = large
+            lc = LineCounter(budget(size))
+            sys.settrace(lc)
+            try:
+                try:
+                    cj.ct._type.decode(doc)
+                    outcome = 'value'
+                except StepLimit:
+                    outcome = 'steplimit'
+                except asn1tools.DecodeError:
+                    outcome = 'DecodeError'
+                except Inconclusive:
+                    raise
+                except Exception as e:
+                    outcome = 'other-exception:' + type(e).__name__
+            finally:
+                sys.settrace(None)
+                eng.index_limit = None
+                eng.on_large_index = None
+        ctx.note(outcome)
+        if outcome == 'steplimit':
+            ctx.violation('work-budget-exceeded', '> %d line events for a %d-octet document' % (budget(size), size))
+            return
+        ctx.res.proved += 1
+        if fingerprint(cj.spec) != fp0:
+            ctx.violation('compiled-specification-modified', outcome)
+            return
+        ctx.res.proved += 1
+        ctx.res.xval += 1
+        if len(ctx.res.samples) < 1:
+            ctx.sample({'job': job['id'], 'outcome': outcome})
+    return harness
+
+
 def make_harness(job):
+    if job.get('kind') == 'jer-doc':
+        return make_doc_harness(job)
     cj = Compiled(job)
     n = job['n']
     fp0 = fingerprint(cj.spec)
